@@ -67,6 +67,22 @@ N = {
  "C17-4": ("filter_by_spike_sync builds the removed trains with a scalar edge", "return_removed_spikes=True and a recording that does not start at 0"),
  "C18-3": ("spike_directionality: zero-spike guard moved into the compiled-kernel try block", "Python fall-back, normalize=True, empty train first: NaN"),
  "C18-4": ("_spike_directionality_values_impl result buffers sized by position instead of selected train", "a non-prefix `indices` selection with trains of different spike counts"),
+ "C04-3": ("_spike_directionality_values_impl divides by len(spike_trains)-1 instead of len(indices)-1", "spike_directionality_values with a proper-subset `indices`"),
+ "C04-4": ("spike_train_order_profile_python: window bound 2*max_tau without the recording-length clamp", "max_tau above half the recording, isolated spikes at least T/2 apart"),
+ "C08-3": ("get_tau: max_tau cap kept in only one of the two return sites", "max_tau given, interior spikes with long ISIs, train-2 spike leading: reflected recording differs"),
+ "C08-4": ("spike_distance_python: start-edge ISI of a one-spike first train measured from 0 instead of t_start", "first train one spike not on t_start and t_start != 0: result depends on the position on the time axis"),
+ "C10-3": ("PieceWiseConstFunc.__call__ scalar path: breakpoint test with np.isclose", "a single time within isclose tolerance of a breakpoint but not on it"),
+ "C10-4": ("PieceWiseLinFunc.avrg list of intervals: divides by the span instead of the summed lengths", "a list of non-contiguous or unordered intervals (piecewise-linear only)"),
+ "C16-3": ("get_tau: the max_tau/2 cap moved into Interpolate's `mab`", "MRTS/4 > max_tau with real neighbours whose half-ISIs exceed max_tau"),
+ "C16-4": ("_spike_sync_values interval branch does not forward max_tau", "`interval=` and `max_tau=` both given"),
+ "C19-3": ("SpikeTrain constructor is_sorted=False branch uses np.unique instead of np.sort", "two spike times that are equal (or become equal at the saved precision) within one line"),
+ "C19-4": ("import_spike_trains_from_time_series: (start + k+1)*bin instead of start + (k+1)*bin", "start_time != 0 together with time_bin != 1"),
+ "C20-3": ("psth pools the trains with np.union1d", "two trains sharing an identical spike time"),
+ "C20-4": ("generate_poisson_spikes: T_start no longer added to the cumulative sums", "an interval starting above 0"),
+ "C07-3": ("coincidence_python: the multiplicity of the t_end edge entry is no longer copied from its neighbour", "the last spikes of the two trains coincide exactly: edge entry with value 2 and multiplicity 1"),
+ "C07-4": ("spike_distance_python tie branch: nearest-spike search of train 1 starts one spike too late", "an exact tie, train 1 fires again, and the nearest train-2 spike to that next spike is the shared spike"),
+ "C12-3": ("directionality_python_backend order profile: empty-train special case fires when only one train is empty (fall-back only)", "exactly one empty train"),
+ "C12-4": ("cython_profiles.pyx dist_at_t RI branch divides by meanISI instead of the floored mean (only this .pyx copy)", "RI=True with an MRTS larger than a local mean ISI"),
 }
 rows = []
 for key, (what, needs) in sorted(N.items()):
